@@ -55,6 +55,30 @@ def r1_r4_score_table(ctx, sym, model):
                 raised.append((cfg, got))
             elif got['score'] != want['score']:
                 bad.append((cfg, (s_, sl_), got['score'], want['score'], got['scores']))
+    # ... and the same with the tables built by Report.suppress itself (writer/reader agreement): a suppressed
+    # feedback contributes nothing to the score, however the suppression was spelled
+    writer_calls = [
+        [dict(label='S')], [dict(label='S', fields={'k': 1})], [dict(category='specification', label='S')],
+        [dict(category='Specification', label='S', fields={'k': 1})], [dict(category='specification')],
+        [dict(label='BonusPoints')], [dict(label='S', fields={'k': 'no-match'})],
+        [dict(category='specification', label='other'), dict(label='S')],
+    ]
+    for calls_ in writer_calls:
+        try:
+            s_, sl_ = model.suppress_tables(*calls_)
+        except Raised:
+            continue    # C01.R6 reports a raising suppress()
+        for label, val, trig, sc in itertools.product(('S', 'BonusPoints'), (-1, 1), (True, False), ('+5', 0.25)):
+            cfg = dict(category='specification', label=label, triggered=trig, valence=val, score=sc, fields={'k': 1})
+            n += 1
+            seq = [anchor, cfg]
+            got, want = model.resolve(seq, s_, sl_), model.oracle_by_calls(seq, calls_)
+            if isinstance(got, tuple):
+                raised.append((cfg, got))
+            elif got['score'] != want['score']:
+                bad.append((cfg, 'suppress(%s)' % '; '.join(', '.join('%s=%r' % kv for kv in c.items())
+                                                            for c in calls_), got['score'], want['score'],
+                            got['scores']))
     # default-correct result scores 1
     for cfg in (dict(category='specification', label='S', triggered=False, valence=-1, score='+5'),
                 dict(category='instructor', label='P', triggered=True, valence=1, score='+5', muted=True)):
@@ -252,5 +276,12 @@ def run(ctx):
     # the merge/finalize table above speaks about resolve() only if resolve() feeds every feedback through it
     from .c01 import r3_r5_resolvers
     r3_r5_resolvers(ctx, sym, ids=('R6', 'R7'), writers=False)
+    # the score table takes each feedback's valence / score / unscored / muted as given: the constructor must store
+    # what the caller passed
+    ctx.rule('R8', "Feedback.__init__ executed abstractly for valence, score, unscored and muted: an explicit keyword "
+                   "argument - falsy ones (neutral valence 0, score 0, False) included - becomes the instance's value "
+                   "(shared with C20.R8)")
+    from .c20 import constructor_rule
+    constructor_rule(ctx, sym, 'R8', ['valence', 'score', 'unscored', 'muted'])
     ctx.assume("floating-point rounding of particular sums beyond the tabulated cells is not decided; Score.__str__'s "
                "integer rounding when a total is divided among unit tests is outside the statement")
